@@ -32,6 +32,8 @@ type CrashPlan struct {
 	FailFlush    []int `json:"failflush,omitempty"`
 	MaxPoints    int   `json:"maxpoints"` // crash points examined (0 = all)
 	ImageKind    int   `json:"imagekind"` // backend the crash images are rebuilt on
+	// ConcurrentFlush: for a third of the blocks the flush runs as a second goroutine and is placed inside storeBlock
+	ConcurrentFlush bool `json:"concurrent_flush,omitempty"`
 }
 
 func drawC02(rt *rapid.T, p *Plan, tier string) *Plan {
@@ -61,6 +63,7 @@ func drawC02(rt *rapid.T, p *Plan, tier string) *Plan {
 		cp.MaxPoints = 10
 	}
 	cp.ImageKind = l.Backend % 3
+	cp.ConcurrentFlush = rapid.Bool().Draw(rt, "concflush")
 	p.Crash = cp
 	nt := rapid.IntRange(0, 2).Draw(rt, "nticks")
 	for i := 0; i < nt; i++ {
@@ -138,7 +141,22 @@ func (r *run) runC02() {
 			sim.Wait()
 			note()
 		}
-		if err := V.AddBlockBytes(r.raw[b.Index]); err != nil {
+		if cp.ConcurrentFlush && r.tape.Chance(1, 3) {
+			// the flush runs concurrently with this AddBlock and lands at a tape-chosen place inside storeBlock
+			aerr, ferr := r.addBlockWithConcurrentFlush(V, r.raw[b.Index], V.Local.FlushGC)
+			if r.fail != nil {
+				return
+			}
+			if aerr != nil {
+				r.violate(sim.Violatef("replica-rejected-block", "", "V (%+v) rejected valid block %d (with a concurrent flush): %v", V.Local, b.Index, aerr))
+				return
+			}
+			if ferr != nil {
+				r.violate(sim.Violatef("persist-error", "", "V concurrent flush during block %d: %v", b.Index, ferr))
+				return
+			}
+			r.log.Addf("V block %d with a concurrent flush, batches=%d", b.Index, V.Disk.Batches())
+		} else if err := V.AddBlockBytes(r.raw[b.Index]); err != nil {
 			r.violate(sim.Violatef("replica-rejected-block", "", "V (%+v) rejected valid block %d: %v", V.Local, b.Index, err))
 			return
 		}
@@ -149,6 +167,7 @@ func (r *run) runC02() {
 			V.Disk.FailBatch(1)
 			err := V.BC.VerifPersist(false)
 			sim.Wait()
+			V.Disk.Disarm() // if there was nothing to write the failure must not hit a later, unrelated flush
 			if err == nil {
 				// nothing to write is fine; otherwise the injected error must surface
 				r.out.Probes["failflush_nothing_to_write"]++
